@@ -87,7 +87,7 @@ MANIFEST = dict(
          "strtod enter the theorems as parameters constrained by named hypotheses (their executable references are compared with glibc "
          "on every run). json_bool is taken to be 0/1. The model is hand-written: theorems are about the model, the correspondence run "
          "is testing. Tie by translation (new): json_object_int_inc is translated from clang's typed AST of the current source into Lean on every run (tools/extract/c2lean.py -> Generated/Translated.lean; the int64 / uint64 union as its 64-bit pattern, enum values as clang evaluates them, signed overflow = fault) and Lemmas/TranslatedNum.lean proves that Model/Num.lean's intInc computes the same return value, representation tag and bit pattern for every node and every increment (intInc_agrees, intInc_other); json_parse_int64 likewise (parseInt64_agrees: given the libc model's answer for strtoll, same return code, *retval written exactly when something was consumed, same errno) and json_object_get_boolean (getBoolean_string: true exactly for a non-empty string in either representation of the length field, getBoolean_int, getBoolean_bool, getBoolean_other; the double branch is an opaque floating-point verdict); rebuilt and axiom-audited with the property theorems.",
-    technique="Lean 4 proof (case analysis over node kinds and decoded doubles, omega) + model/implementation correspondence run",
+    technique="Lean 4 proof (case analysis over node kinds and decoded doubles, omega) + model/implementation correspondence run + agreement theorems with Lean definitions translated from the current C source (clang AST) on every run",
     design="6/C10")
 
 M64 = (1 << 64) - 1
